@@ -596,6 +596,19 @@ def work_C03(run, rng, budget):
         s2, err = safe(tucan_of, h.copy())
         if err is not None or s2 != s:
             run.fail("not-a-fixed-point", f"tucan(parse(s)) = {s2!r} for s = {s!r}", {"mol": mol_repr(m), "strings": [s, s2]})
+        # the string alone determines the parse: a caller editing an earlier result (the library returns plain mutable graphs)
+        # must not change what a later parse of the same string returns
+        last = list(h.nodes)[-1]
+        h.nodes[last]["mass"] = 999
+        h.remove_node(list(h.nodes)[0])
+        line, real, info2 = R.op_parse(s)
+        run.corr(line, real, "observable")
+        h2 = info2.get("graph")
+        if h2 is None or h2 is h or h2.number_of_nodes() != g.number_of_nodes() or h2.number_of_edges() != g.number_of_edges() \
+                or not ISO.isomorphic(g, h2):
+            run.fail("parse-depends-on-an-earlier-result", f"parse({s!r}) after the caller edited the graph an earlier parse of the "
+                     "same string returned: not the molecule any more", {"mol": mol_repr(m), "string": s,
+                     "history": "g1 = graph_from_tucan(s); g1.remove_node(first); graph_from_tucan(s)"})
         run.sample({"mol": tag, "tucan": s})
     for m in molecules(run, rng, 150 * budget):
         one(m, m.family)
@@ -612,7 +625,8 @@ def work_C03(run, rng, budget):
         sizes(run, m)
         one(m, "multi_digit")
     return "random molecules of all families + one molecule with all 118 elements + multi-digit/labelled mixes; real " \
-           "graph_from_tucan(tucan(G)) compared with G by the independent matcher, then re-serialised; non-trivial = >= 2 atoms"
+           "graph_from_tucan(tucan(G)) compared with G by the independent matcher, then re-serialised, then the returned graph is " \
+           "edited by the caller and the same string parsed again; non-trivial = >= 2 atoms"
 
 
 # =====================================================================================
